@@ -243,7 +243,8 @@ def filt_check(n):
                 v.append(("lp+hp", "lp+hp != identity for n=%d corners=%r axis=%r (max err %.3g)"
                           % (n, c, axis, float(np.max(np.abs(lo + hi - arr))))))
     # band pass = high pass then low pass
-    for (c1, c2) in (((0.02, 0.05), (0.2, 0.3)), ((0.1, 0.2), (0.15, 0.4))):
+    # ... with corners at zero frequency and at Nyquist (int 0, float 0.0, numpy zero) among them
+    for (c1, c2) in (((0.02, 0.05), (0.2, 0.3)), ((0.1, 0.2), (0.15, 0.4)), ((0, 0.04), (0.2, 0.3)), ((0.0, 0.04), (0.2, 0.5)), ((np.float64(0), 0.1), (0.3, 0.4))):
         b4 = [c1[0] * fs, c1[1] * fs, c2[0] * fs, c2[1] * fs]
         for axis in (0, 1):
             try:
